@@ -13,7 +13,7 @@ CLAIMED = {
     "C01": ("bounded symbolic model checking of the RESP codec and the connection read loop on symbolic bytes: parse(enc(args) ++ tail) returns exactly args and "
             "len(enc(args)) for arbitrary argument bytes (incl. CR/LF/NUL/non-UTF-8) and every strict prefix is 'need more'; deserialize(serialize(v)) = v for bounded reply "
             "trees; error replies quoting arbitrary client bytes stay one frame; the real clientCxn inbound-buffer code dispatches two pipelined commands in order for every "
-            "cutting of the stream into <= 3 segments and writes cut-independent reply bytes", "5/C01"),
+            "cutting of the stream into <= 3 segments and writes cut-independent reply bytes; the serializer on simple-string / error replies with arbitrary text of up to 5 (8) bytes: body free of CR and LF, one frame", "5/C01"),
     "C06": ("bounded symbolic model checking: (L2) 182 command templates covering the data commands x the target key in each of 5 type states (with/without TTL), symbolic "
             "values and unconstrained int64 arguments through the real dispatcher, with the monitors 'error reply => every key/value/expiry unchanged', 'no empty "
             "list/hash/set', 'one type per key with matching payload', dictionary placement invariant, no panic; RENAME/RENAMENX/COPY[REPLACE] on every type incl. "
@@ -44,13 +44,13 @@ CLAIMED = {
     "C12": ("bounded symbolic model checking of how a block ends: CLIENT UNBLOCK id [TIMEOUT|ERROR] issued while the target is parked, or the (stub) timer firing: null / "
             "UNBLOCKED error reply, reply 1 only for a blocked target (0 for idle or unknown ids, 0 after the fact), capture state / pending flag / mailbox / wait "
             "queues reset, a later push stays in the list, the connection blocks and is served again; blocking commands queued in MULTI return null at EXEC without "
-            "blocking. Outside the claim: promptness after the timeout (Go runtime timers) and TCP close / CLIENT KILL delivery; the timer a block arms: exactly the timeout, exactly the remaining time after a lost race (harness clock), no reachable deadline for timeout 0, null reply and state reset when it fires; CLIENT UNBLOCK [ERROR] arriving at every schedule point of all five blocking commands: reports 1 exactly when it ends the block, is never remembered", "5/C12"),
+            "blocking. Outside the claim: promptness after the timeout (Go runtime timers) and TCP close / CLIENT KILL delivery; the timer a block arms: exactly the timeout, exactly the remaining time after a lost race (harness clock), no reachable deadline for timeout 0, null reply and state reset when it fires; CLIENT UNBLOCK [ERROR] arriving at every schedule point of all five blocking commands: reports 1 exactly when it ends the block, is never remembered; any one of three waiters leaving the wait queues without data: the others keep their order and a later push serves the oldest", "5/C12"),
     "C13": ("bounded symbolic model checking of the parser on every byte string up to 5 (quick) / 7 (thorough) bytes and of the length-taking parser routines for every "
             "non-negative declared count: no panic, no allocation by declared size, consumed length inside the buffer (command-level no-panic obligations are part of "
             "the per-family checks C02-C05/C18, whose harnesses run under vCatch with unconstrained int64 arguments); every length-taking header ($ * % ~ > | ! = and the ;n chunks of streamed strings) with an arbitrary 64-bit number through the public parser entry; the command table (182 templates, thorough: + 212 grammar-derived shapes) x 5 key types with every integer argument an arbitrary 64-bit number under the no-panic / no-client-sized-allocation monitor; commands with non-bulk RESP2/RESP3 arguments; session commands queued and run by EXEC (self-deadlock = a strand that blocks for ever is reported); RESTORE with arbitrary 10..16-byte payloads (the solver produces the checksum) and DUMP/RESTORE round trips; lock order: every nested mutex acquisition of the session commands and two cross-database programs is logged by class, opposite edges and ungated nestings of two database locks are candidates, each confirmed natively by two command loops that stop making progress", "5/C13"),
     "C02": ("bounded symbolic model checking of the real command path (dispatcher, grammar parser, handlers, store) for the string/counter family: "
             "SET option combinations on every key type, SETNX/GETSET/GETDEL/APPEND/STRLEN, MSET/MSETNX all-or-nothing, INCR family for all int64 "
-            "old values and deltas with exact overflow, GETRANGE/SETRANGE for all int64 offsets, against a model of t_string.c; values are symbolic byte strings of <= 2-3 bytes (4-5 in the thorough tier); INCRBYFLOAT result text / errors on concrete vectors (floating point is outside the solver: sampled, not for all values)", "5/C02"),
+            "old values and deltas with exact overflow, GETRANGE/SETRANGE for all int64 offsets, against a model of t_string.c; values are symbolic byte strings of <= 2-3 bytes (4-5 in the thorough tier); INCRBYFLOAT result text / errors on concrete vectors (floating point is outside the solver: sampled, not for all values); SET with EX/PX/EXAT/PXAT for every non-positive number (refused, inert) and a table of positive ones around now", "5/C02"),
     "C03": ("bounded symbolic model checking of every list command through the real dispatcher on lists of symbolic length (<=3 quick, <=5 thorough) "
             "with symbolic one-byte elements and unconstrained int64 index/count/rank arguments, against a Go-slice model of t_list.c plus the "
             "linked-list representation invariant (inductive step within the size bound)", "5/C03"),
@@ -62,19 +62,19 @@ CLAIMED = {
             "source = destination, SREM, SINTERCARD for all int64 limits, SRANDMEMBER shape for counts -3..3 and extreme counts", "5/C05"),
     "C14": ("bounded symbolic model checking of programs of 2 (quick) / 3 (thorough) steps by two connections plus a third opened at a symbolic step, each step a "
             "symbolic choice of SELECT / SET / GET / DEL / DBSIZE / FLUSHDB / FLUSHALL / CLIENT SETNAME / GETNAME, against 16 model maps and per-connection session records "
-            "(every reply, frame condition on every connection after every step, final cross-read); SELECT for every int64 index; SELECT queued inside MULTI (3-4 queued steps) with an observer connection reading every database", "5/C14"),
+            "(every reply, frame condition on every connection after every step, final cross-read); SELECT for every int64 index; SELECT queued inside MULTI (3-4 queued steps) with an observer connection reading every database; a client blocked in a pop while its database is flushed (FLUSHDB / FLUSHALL) is served by the next push", "5/C14"),
     "C15": ("bounded symbolic model checking of resp3To2 on reply trees of every RESP3 kind (depth <= 1 quick / 2 thorough, symbolic leaves) against the canonical "
             "down-conversion, RESP2-only output types and one-frame serialisation; HELLO for all int64 protocol versions incl. frame condition on a second connection; "
-            "30 commands of every reply shape executed on identical data under RESP2 and RESP3 with reply2 = downconvert(reply3)", "5/C15"),
+            "30 commands of every reply shape executed on identical data under RESP2 and RESP3 with reply2 = downconvert(reply3); replies of a dispatch hook (bool, big number, map, double, array, set) take the same conversion", "5/C15"),
     "C16": ("lock-set discipline decided by bounded symbolic execution, every report confirmed by the Go race detector: each session / introspection command (25 commands, "
             "in and out of MULTI), connection tear-down, and the 182 data-command templates run under a monitor that logs every access to per-connection, global and store "
             "memory with the set of mutexes held; two accesses to one field from different connections with disjoint lock sets and at least one write are a candidate pair; "
             "each pair is run concurrently (300 iterations on two connections) in a -race build and only a detector report is a violation; unconfirmed candidates are "
-            "listed in the evidence. Sufficient, not necessary: races the bounded command shapes do not reach, and goroutines of the socket layer and the saver, are outside the claim; the periodic saver (dss.save) is one more actor of the analysis", "5/C16"),
+            "listed in the evidence. Sufficient, not necessary: races the bounded command shapes do not reach, and goroutines of the socket layer and the saver, are outside the claim; the periodic saver (dss.save) is one more actor of the analysis; package-level variables (client id counter, client table) and connection set-up are part of the log", "5/C16"),
     "C17": ("inductive argument, each lemma decided on the real code: hashToIndex(h,2n)>>1 == hashToIndex(h,n) for every 64-bit hash and n = 16..256 (growth splits bucket i "
             "into 2i,2i+1); one call of dictScanUnlocked on tables of 16 and 32 buckets (occupancy patterns, tracked bucket, every start position, arbitrary cursor bits above "
             "the mask, COUNT 1..3): progress, nothing between old and new position skipped, nothing invented, and the returned cursor decodes to 2x / half the position after "
-            "doubling / halving; bounded end-to-end SCAN and SSCAN iterations (18-20 names, table growth from 16 to 32 buckets or shrink between two calls)", "5/C17"),
+            "doubling / halving; bounded end-to-end SCAN and SSCAN iterations (18-20 names, table growth from 16 to 32 buckets or shrink between two calls); iterations with MATCH / TYPE filters and an expired key that must never be returned", "5/C17"),
     "C18": ("bounded symbolic model checking: the real bit kernels (extractBitfield, setBitfield, signExtend, signed/unsigned overflow) over a 10-byte "
             "symbolic array / all int64 values and all offsets and widths against a big-endian bit-vector reference and Redis' overflow functions; "
             "BITFIELD GET/SET/INCRBY through the real dispatcher (type table, bit and #-offsets, every OVERFLOW mode, symbolic stored bytes and value) against "
